@@ -50,6 +50,10 @@ SHARED = [
     '.include "c17_cfgpart.inc"\n nop',
     '.equ e1 = 1\n.equ e2 = 2\n.equ e3 = 3\n.equ e4 = 4\n .dw nosuch',
     '.error "stop"', '', ' nop',
+    # builds that fail deep inside a definition chain, next to builds that use definitions of the same shape
+    '.equ a = a + 1\n ldi r16, a', '.equ x = y * 2\n.equ y = x + 1\n .dw x', '.equ b = 2 * 8\n.equ c = b + 1\n ldi r16, c', '.equ a = 3 * 3\n ldi r16, a',
+    # rarely used directives: whatever they report, they report it in every build
+    '.csegsize 11\n nop', '.csegsize 12\n ret\n.message "after"', '.dseg\n.byte 2\n.cseg\n#pragma AVRPART CORE CORE_VERSION V2\n nop', '.listmac\n.list\n.nolist\n nop',
     # data, eeprom, messages
     '.eseg\n.db 1, 2, 3\n.cseg\n nop\n.message "a"\n.message "b"',
     '.eseg\n.db 9\n.cseg\n ret\n.message "b"\n.message "a"',
